@@ -66,6 +66,7 @@ MCCuts(st) == {NoCut}
 
 MCProgs(st) ==
   { << Op("RM"), Op("RM"), Op("RM"), Op("RM") >>,
+    << Swd(-1), Op("RM"), Op("RM"), Op("RM"), Op("RM") >>,
     << Op("NR"), Rd(1), Rd(4096), Rd(4096), Op("NR"), Op("NR") >>,
     << Op("NR"), Op("NR"), Op("NR") >> }
 =============================================================================
